@@ -455,8 +455,59 @@ def keyword_constructor_cases():
     return out
 
 
+def typed_number_cases():
+    """the same numbers as numpy scalars of every width, Fraction and bool: constructor, (value, error) operand, error and
+    relative_error setters of measurements and calculated quantities.  Oracle only (the model's numbers are untyped)."""
+    import numpy as np
+    from fractions import Fraction
+    out = []
+    types = [("np.float64", np.float64), ("np.float32", np.float32), ("np.float16", np.float16), ("np.int64", np.int64),
+             ("np.int8", np.int8), ("Fraction", Fraction), ("bool", bool)]
+    for tname, ty in types:
+        for x in (-1, 0, 1, -0.5, 0.5):
+            if tname in ("np.int64", "np.int8", "bool") and x != int(x):
+                continue
+            if tname == "bool" and x < 0:
+                continue
+            num = ty(x)
+            for how in ("ctor", "operand", "set_error", "set_rel", "derived_set_error", "derived_set_rel", "array_error"):
+                CL.reset_world()
+                qq = q()
+                try:
+                    with warnings.catch_warnings():
+                        warnings.simplefilter("ignore")
+                        before = None
+                        if how == "ctor":
+                            m = qq.Measurement(2.5, num)
+                        elif how == "operand":
+                            m = (qq.Measurement(1.0, 0.5) + (2.5, num))._formula.operands[1]
+                        elif how == "array_error":
+                            m = qq.MeasurementArray([1.0, 2.0], num)[1]
+                        else:
+                            m = qq.Measurement(-2.5, 0.25) if not how.startswith("derived") else qq.Measurement(-2.5, 0.25) * 2
+                            before = (float(m.value), float(m.error))
+                            try:
+                                if how.endswith("set_error"):
+                                    m.error = num
+                                else:
+                                    m.relative_error = num
+                            except Exception:  # noqa
+                                if (float(m.value), float(m.error)) != before:
+                                    out.append(("typed", {"form": "typed", "type": tname, "x": x, "how": how},
+                                                "{} with {}({}) was rejected but changed the quantity from {} to {}".format(
+                                                    how, tname, x, before, (float(m.value), float(m.error)))))
+                                continue
+                        err = float(m.error)
+                except Exception:  # noqa
+                    continue
+                if not ok_number(err):
+                    out.append(("typed", {"form": "typed", "type": tname, "x": x, "how": how},
+                                "{} with the number {}({}) gives uncertainty {}".format(how, tname, x, err)))
+    return out
+
+
 def oracle_constructors(rng, n):
-    out = keyword_constructor_cases()
+    out = keyword_constructor_cases() + typed_number_cases()
     for c in constructor_cases(rng, n):
         if c["out"] == "Accepted" and not ok_number(c["err"]):
             out.append(("ctor", c, "{} with ({}, {}) has uncertainty {}".format(
@@ -519,7 +570,7 @@ def replay(ctx, v):
     else:
         import random
         found = [w for k, c, w in oracle_constructors(random.Random(0), 0)
-                 if k == v["kind"] and all(c.get(f) == v["case"].get(f) for f in ("form", "v", "e", "data", "error", "rel", "kw"))]
+                 if k == v["kind"] and all(c.get(f) == v["case"].get(f) for f in ("form", "v", "e", "data", "error", "rel", "kw", "type", "x", "how"))]
         why = found[0] if found else None
     CL.reset_world()
     return Violation(ID, v["kind"], v["case"], why) if why else None
